@@ -71,6 +71,25 @@ Theorem C05_refcounter_retain_matches_source : forall w r n, cnt (retain1 w r n)
 Proof. exact bridge_rc_retain_sync. Qed.
 Print Assumptions C05_refcounter_kernel_matches_source.
 
+(* the turn of a child that left since the snapshot was taken is not vacuous, and it is balanced: node 2 is a slice that
+   ends after one element and is attached to the source 0 AND to the map 1 (through connect).  An emission at 0 walks the
+   snapshot [1; 2]: 1 hands the element on to 2, which takes it, finishes and removes itself from the downstreams of both;
+   when the loop of 0 reaches 2 it is gone (Stream._emit: `downstream not in self.downstreams`): no call 0 -> 2, and the
+   reference retained for it up-front is released - the counter is back at the owner's 1 and no callback was scheduled.
+   (With the first wording of the repair of defect 32, a bare `continue`, the count stayed at 2.) *)
+Definition ex_skip_g : graph :=
+  [ {| nkind := KSource; ups := [] |};
+    {| nkind := KMap (fun v => Some v); ups := [0] |};
+    {| nkind := KSlice 0 (Some 1) 1; ups := [0; 1] |};
+    {| nkind := KSink (fun _ => Some tt); ups := [2] |} ].
+Example C05_detached_child_skipped_and_balanced :
+  let w0 := retain1 (init_world ex_skip_g) 0 1 in            (* the owner's reference *)
+  let '(w1, s1) := push 6 ex_skip_g 0 0 w0 (VInt 7%Z) [{| mid := 0; mref := true |}] in
+  wf_dag ex_skip_g /\ s1 = SOk /\ downs ex_skip_g w0 0 = [1; 2] /\ downs ex_skip_g w1 0 = [1] /\
+  map (fun e => (e_src e, e_dst e)) (rev (log w1)) = [(0, 1); (1, 2); (2, 3)] /\
+  cnt w1 0 = 1%Z /\ fired w1 = [].
+Proof. split; [apply wf_dagb_spec; reflexivity|]. vm_compute. repeat split; reflexivity. Qed.
+
 (* ---- _emit bridges (harness/mkprops_emit.py): begin ---- *)
 (* Stream._emit, Stream._retain_refs and Stream._release_refs are the ones regenerated from the source under test on this
    run: Gen/KN__refs.v and Gen/KN__emit.v are written by harness/gen_emit.py from the python AST of streamz/core.py,
